@@ -95,9 +95,12 @@ ReSrc(v) == (IF v.i \in {1, 3} THEN <<11>> ELSE <<>>) \o EscChars(v.s, {BS, PO, 
 KX == <<1>>  KY == <<10>>  KXY == <<1, 10>>  KYX == <<10, 1>>  KE == <<9>>          \* struct fields: int, float, string, bool, string
 KS == <<1, 3, 10>>  KQ == <<1, 4>>  KP == <<6, 1, 7>>                               \* only in JSON records:  X Y   X"   (X)
 KM == <<10, 2>>                                                                    \* never present
+KB == <<1, 5>>                                                                     \* X\ (ends in a backslash); in no witness record: the JSON
+                                                                                   \* accessor (gjson paths) cannot name such a key, so only the text
+                                                                                   \* round trip of queries on it is judged
 StructKeys == <<KX, KY, KXY, KYX, KE>>
-QKeys == <<KX, KY, KXY, KYX, KE, KS, KQ, KP, KM>>
-StrKeys == <<KXY, KE, KS, KQ, KP>>
+QKeys == <<KX, KY, KXY, KYX, KE, KS, KQ, KP, KM, KB>>
+StrKeys == <<KXY, KE, KS, KQ, KP, KB>>
 
 IntRanks == 0..8          \* driver: MinInt64, -2^53-1, -1, 0, 1, 2^31, 2^53+1, MaxInt64-1, MaxInt64
 FloatRanks == 0..7        \* driver: -Inf, -1e300, -1.5, 0, 5e-324, 0.1, 1e300, +Inf   (fields: 1..6 only)
